@@ -117,6 +117,23 @@ Example C17_deque_second_witness_immune :
   aba g = false.
 Proof. exact aba2_witness_immune. Qed.
 
+(* the mirror images of both schedules (stabilize_left, the LEFT link — word 0 of the chunk, whose
+   pointer bits the freelist overwrites); A pops from the right after its push, because a corrupted
+   left link is invisible to a drain from the left.  On the real deque with the fix reverted: A gets
+   100,5,4 resp. 5,4 and the chain has become cyclic; repaired: 100,5,6 resp. 5,7, deque empty *)
+Example C17_deque_mirror_witnesses_immune :
+  let c1 := run dq_tstep aba3_full_sched (dq_init aba_k, dq_locals aba3_progs) in
+  let c2 := run dq_tstep aba4_full_sched (dq_init aba_k, dq_locals aba4_progs) in
+  (forall t, (t < 4)%nat -> dq_done (snd c1 t) = true) /\ (forall t, (t < 4)%nat -> dq_done (snd c2 t) = true) /\
+  dq_results 0 (dlog (fst c1)) = [None; Some 100; Some 5; Some 6] /\
+  dq_results 0 (dlog (fst c2)) = [None; Some 5; Some 7] /\
+  dq_results 3 (dlog (fst c1)) = [None; None; None; None; None] /\
+  dq_results 3 (dlog (fst c2)) = [None; None; None; None; None] /\
+  perm_b (popped_vals (dlog (fst c1))) (pushed_vals (dlog (fst c1))) = true /\
+  perm_b (popped_vals (dlog (fst c2))) (pushed_vals (dlog (fst c2))) = true /\
+  aba (fst c1) = false /\ aba (fst c2) = false.
+Proof. exact aba_mirror_witnesses_immune. Qed.
+
 (* 2.3 What does hold for every schedule, every thread count, every program. *)
 
 (* the anchor tag counts the successful anchor CASes: it grows by exactly one with each *)
